@@ -53,6 +53,8 @@ func main() {
 		runC08(r, rng, thorough)
 	case "C10":
 		runC10(r, rng, thorough)
+	case "C20":
+		runC20(r, rng, thorough)
 	case "C14":
 		runC14(r, rng, thorough)
 	case "C17":
